@@ -10,6 +10,8 @@ CONSTANTS
   Modes = {"pruned", "archival", "convert"}
   MaxRestarts = 2
   MaxDeletes = 3
+  MaxReadFaults = 3
+  MaxAbortFaults = 1
   IntraHead = TRUE
   LazyChain = TRUE
   SimBias = TRUE
@@ -18,5 +20,5 @@ CONSTANTS
   KeepHist = TRUE
   Depth = 70
 INVARIANTS TypeOK Sane NeverInsideWindow ArchivalKeepsODS AllOldPrunedAtCycleEnd PrintBehaviour
-PROPERTIES CheckpointMonotone
+PROPERTIES CheckpointMonotone FailedKept
 CHECK_DEADLOCK FALSE
